@@ -233,7 +233,8 @@ RULE_PRIM = ("direction B at primitive level: the real codec primitives (every g
 RULE_PRIMMODEL = ("design model: PrimMachine.tla, exhaustive over MCPrims!AllCalls (fixed text: widths 0..3 x 6 pad bytes x both sides x all texts of length "
                   "<= 4 over {00,41,C3,FF} plus pad-on-either-side shapes; scalars and lists: 4 element kinds x prefix widths 1/2/4/8 x both byte orders x "
                   "0..2 non-palindromic elements; prefixed text and text lists; 8-bit prefixes at 254..257) with the invariants ExactWidth, ReadBack, "
-                  "PairRelation, WrapRefused; the deviation BreakPair must violate PairRelation. A: every case is executed on the real primitives. ")
+                  "PairRelation, WrapRefused, SpareIgnored, each call on a fresh buffer and on a recycled one (320 stale bytes in the spare capacity behind the buffer's end); "
+                  "the deviations BreakPair (C03), PadFromSpare (C13), RoomySkipsCheck (C18) must violate PairRelation / ReadBack / WrapRefused. A: every case (35,184) is executed on the real primitives. ")
 
 
 def c03(run):
@@ -255,6 +256,7 @@ def c03(run):
 
 def c13(run):
     run.prim_model_replay()
+    run.model("MCPrims.tla", "MCPrims_dev_padspare.cfg", expect="ReadBack")
     run.trace("prim-fixed", Q(run, 2, 100))
     run.trace("prim-fixed-sweep", 1, seed_off=100)
     run.trace("prim-fixed-counts", Q(run, 1, 2), seed_off=200, chunk=40)
@@ -280,6 +282,7 @@ def c14(run):
 
 def c18(run):
     run.prim_model_replay()
+    run.model("MCPrims.tla", "MCPrims_dev_roomy.cfg", expect="WrapRefused")
     run.trace("prim-limits", Q(run, 1, 2), chunk=40)
     run.trace("msg-limits", Q(run, 1, 2), seed_off=100, chunk=6)
     return run.finish(RULE_PRIMMODEL + RULE_PRIM + "Lengths 0,1,254..257,300,511,512 behind 8-bit prefixes and 65535,65536 (thorough: 65534..65537,131072) behind 16-bit prefixes, every prefixed writer, both byte orders; message level: the pinned fields with 16-bit prefixes.",
